@@ -121,7 +121,7 @@ pub fn userinfo(rng: &mut Rng, o: Opts) -> String {
         1 => "u".into(),
         2 => "u:p".into(),
         3 => ":".into(),
-        4 => "a:b:c".into(),
+        4 => rng.pick(&["a:b:c", "user:8080", "user:1234567", ":99999", "u:", "1:2", "u%40", "%40", "u:80:x", "user:pass", "u:00000000443"]).to_string(),
         _ => atoms(rng, o, 0, 4, &[":"]),
     }
 }
